@@ -23,8 +23,9 @@ export function merge(original: any, update: any): any {
         for (let i = x[0]; i < x[0] + x[1]; i++) {
           merged.push(original[i]);
         }
-      } else if (merged[x] === -1) {
-        merged.push(undefined);
+      } else if (x === -1) {
+        // A new element; it stays null unless the update carries a value for its index.
+        merged.push(null);
       } else {
         merged.push(original[x]);
       }
